@@ -4,7 +4,7 @@
    parameters (not only [0,1]) and ALL affine maps; equality is rational equality of
    both coordinates ([=p=]). *)
 From Coq Require Import QArith.
-From LV Require Import Base.Prelude Model.Bezier Model.LineInter Proofs.C10_Bezier Gen.Functions Proofs.Gen_Geom Proofs.Gen_GeomProps.
+From LV Require Import Base.Prelude Model.Bezier Model.LineInter Proofs.C10_Bezier Gen.Functions Proofs.Gen_Geom Proofs.Gen_GeomProps Proofs.Gen_Geom2.
 Open Scope Q_scope.
 
 Theorem C10_line_split_l : forall l t u, l_sample (fst (l_split l t)) u =p= l_sample l (t * u).
@@ -169,6 +169,35 @@ Theorem C10_src_coordinates_are_samples : forall q c t,
   src_cubic_sample c t =p= (src_cubic_x c t, src_cubic_y c t).
 Proof. exact src_coordinates_are_samples. Qed.
 
+
+(* LineSegment::solve_t_for_x / solve_t_for_y / solve_y_for_x / solve_x_for_y and the `baseline` of both curves, regenerated
+   from line.rs / quadratic_bezier.rs / cubic_bezier.rs on every run (tools/rs2coq.py): solving inverts the regenerated
+   evaluation on every non-degenerate segment and every abscissa (inside the segment or not); the degenerate branch answers 0;
+   the baseline joins the curve's own end points. *)
+Theorem C10_src_line_solve_inverts_evaluation : forall s v,
+  (~ px (l_to s) == px (l_from s) -> src_line_x s (src_line_solve_t_for_x s v) == v) /\
+  (~ py (l_to s) == py (l_from s) -> src_line_y s (src_line_solve_t_for_y s v) == v) /\
+  (px (l_to s) == px (l_from s) -> src_line_solve_t_for_x s v = 0) /\
+  (py (l_to s) == py (l_from s) -> src_line_solve_t_for_y s v = 0).
+Proof.
+  intros s v. split; [exact (src_line_solve_t_for_x_inverts s v)|]. split; [exact (src_line_solve_t_for_y_inverts s v)|].
+  exact (src_line_solve_t_degenerate s v).
+Qed.
+
+Theorem C10_src_line_solve_other_coordinate_on_line : forall s v,
+  (~ px (l_to s) == px (l_from s) ->
+   (v - px (l_from s)) * (py (l_to s) - py (l_from s)) == (src_line_solve_y_for_x s v - py (l_from s)) * (px (l_to s) - px (l_from s))) /\
+  (~ py (l_to s) == py (l_from s) ->
+   (src_line_solve_x_for_y s v - px (l_from s)) * (py (l_to s) - py (l_from s)) == (v - py (l_from s)) * (px (l_to s) - px (l_from s))).
+Proof. intros s v. split; [exact (src_line_solve_y_for_x_on_line s v)|exact (src_line_solve_x_for_y_on_line s v)]. Qed.
+
+Theorem C10_src_baselines_join_the_ends : forall (q : quad) (c : cubic),
+  src_line_sample (src_quad_baseline q) 0 =p= src_quad_sample q 0 /\
+  src_line_sample (src_quad_baseline q) 1 =p= src_quad_sample q 1 /\
+  src_line_sample (src_cubic_baseline c) 0 =p= src_cubic_sample c 0 /\
+  src_line_sample (src_cubic_baseline c) 1 =p= src_cubic_sample c 1.
+Proof. exact src_baselines_join_the_ends. Qed.
+
 Print Assumptions C10_line_split_l.
 Print Assumptions C10_line_split_r.
 Print Assumptions C10_line_before_split.
@@ -209,3 +238,6 @@ Print Assumptions C10_src_quad_split_range_flip_retrace.
 Print Assumptions C10_src_cubic_split_retraces.
 Print Assumptions C10_src_cubic_split_range_flip_retrace.
 Print Assumptions C10_src_coordinates_are_samples.
+Print Assumptions C10_src_line_solve_inverts_evaluation.
+Print Assumptions C10_src_line_solve_other_coordinate_on_line.
+Print Assumptions C10_src_baselines_join_the_ends.
